@@ -32,6 +32,7 @@ import (
 type Mark struct {
 	Kind        string `json:"kind"`
 	Consumed    int    `json:"consumed"`
+	Sent        int    `json:"sent"` // values the producers had put on the client's channel by then
 	Fin         uint64 `json:"fin,omitempty"`
 	NodeFin     uint64 `json:"node_fin,omitempty"` // geth family: what the L1 node answered
 	HasNodeFin  bool   `json:"has_node_fin,omitempty"`
@@ -70,6 +71,11 @@ type Observed struct {
 	MaxChanFill int `json:"max_chan_fill,omitempty"`
 	// HoldFill: how many values sat in the client's update channel at the end of a `hold` (-1: no hold)
 	HoldFill int `json:"hold_fill"`
+	// Unsubs: the subscriptions (numbered in the order they were established) the client called Unsubscribe
+	// on, one entry per call, in order; FinalChan: values left in the client's channel when Run had returned
+	Unsubs    []int    `json:"unsubs,omitempty"`
+	FinalChan int      `json:"final_chan,omitempty"`
+	FinLog    []string `json:"fin_log,omitempty"` // geth family: the node's answers to the finalized-header queries
 	// NoOptions: the client was built by l1.NewClient(provider, chain, logger) with no option
 	NoOptions bool `json:"no_options,omitempty"`
 	// FeedSlow: a subscriber that takes a value every now and then; FeedIdle: one that only looks
@@ -199,13 +205,22 @@ type scriptedSub struct {
 	errc chan error
 	once sync.Once
 	quit chan struct{}
+	idx  int
+	p    *provider
 }
 
-func newSub() *scriptedSub {
-	return &scriptedSub{errc: make(chan error, 1), quit: make(chan struct{})}
+func newSub(p *provider, idx int) *scriptedSub {
+	return &scriptedSub{errc: make(chan error, 1), quit: make(chan struct{}), idx: idx, p: p}
 }
 func (s *scriptedSub) Err() <-chan error { return s.errc }
-func (s *scriptedSub) Unsubscribe()      { s.once.Do(func() { close(s.quit) }) }
+
+// Unsubscribe is called by the client goroutine, never from inside a provider call.
+func (s *scriptedSub) Unsubscribe() {
+	s.p.mu.Lock()
+	s.p.unsubs = append(s.p.unsubs, s.idx)
+	s.p.mu.Unlock()
+	s.once.Do(func() { close(s.quit) })
+}
 
 var errScripted = errors.New("scripted failure")
 
@@ -230,6 +245,7 @@ type provider struct {
 	raw   db.KeyValueStore
 	kv    *faultyKV
 
+	unsubs    []int
 	writes    []WriteRec
 	accessorP []string
 	maxFill   int
@@ -273,6 +289,8 @@ func fromSU(u *l1.StateUpdate) Log {
 // tapSub is the subscription handed to the client in the geth family: the real forwarder's
 // subscription plus the pump that moves its output onto the client's channel.
 type tapSub struct {
+	idx      int
+	p        *provider
 	inner    l1.Subscription
 	quit     chan struct{}
 	errc     chan error
@@ -310,6 +328,9 @@ func (p *provider) gate() {
 // the real forwarder has stopped and the pump has handed over what the forwarder had already put
 // on its channel — nothing of the old subscription can arrive after the next one is set up.
 func (t *tapSub) Unsubscribe() {
+	t.p.mu.Lock()
+	t.p.unsubs = append(t.p.unsubs, t.idx)
+	t.p.mu.Unlock()
 	t.inner.Unsubscribe()
 	t.once.Do(func() { close(t.quit) })
 	<-t.pumpDone
@@ -422,6 +443,7 @@ func (p *provider) checkAccessor(raw *HeadJ, where string) {
 // mark must be called with p.mu held, at the very start of a provider call.
 func (p *provider) mark(m Mark) {
 	m.Consumed = p.sent
+	m.Sent = p.sent
 	if p.ch != nil {
 		m.Consumed = p.sent - len(p.ch)
 	}
@@ -445,6 +467,13 @@ func (p *provider) ChainID(ctx context.Context) (*big.Int, error) {
 		p.chainIDFails--
 		p.mark(Mark{Kind: "chainidfail"})
 		return nil, p.fail()
+	}
+	if p.c.ChainIDHangs {
+		p.mark(Mark{Kind: "chainidhang"})
+		p.mu.Unlock()
+		<-ctx.Done()
+		p.mu.Lock()
+		return nil, ctx.Err()
 	}
 	p.mark(Mark{Kind: "chainid"})
 	if p.c.ChainIDMismatch {
@@ -581,7 +610,7 @@ func (p *provider) WatchStateUpdate(ctx context.Context, ch chan<- *l1.StateUpda
 		p.mark(Mark{Kind: "watch"})
 		p.watched = true
 		p.ch = ch
-		ts := &tapSub{inner: isub, quit: make(chan struct{}), errc: make(chan error, 1), pumpDone: make(chan struct{})}
+		ts := &tapSub{idx: p.watchOK, p: p, inner: isub, quit: make(chan struct{}), errc: make(chan error, 1), pumpDone: make(chan struct{})}
 		go p.pump(mid, ch, ts.quit, ts.pumpDone)
 		go p.watchInner(ts)
 		p.watchOK++
@@ -597,7 +626,7 @@ func (p *provider) WatchStateUpdate(ctx context.Context, ch chan<- *l1.StateUpda
 	p.mark(Mark{Kind: "watch"})
 	p.watched = true
 	p.ch = ch
-	p.sub = newSub()
+	p.sub = newSub(p, p.watchOK)
 	p.watchOK++
 	p.cond.Broadcast()
 	return p.sub, nil
@@ -841,6 +870,13 @@ func runCase(c *Case) *Observed {
 		// client is inside the retry loop (after three failed attempts)
 		never := c.WatchFails >= neverSucceeds || c.ChainIDFails >= neverSucceeds
 		ok := p.waitFor(func() bool {
+			if c.ChainIDHangs {
+				for _, m := range p.marks {
+					if m.Kind == "chainidhang" {
+						return true
+					}
+				}
+			}
 			if never {
 				n := 0
 				for _, m := range p.marks {
@@ -954,6 +990,10 @@ func runCase(c *Case) *Observed {
 		}
 	}
 	obs.Writes = append([]WriteRec(nil), p.writes...)
+	obs.Unsubs = append([]int(nil), p.unsubs...)
+	if p.ch != nil {
+		obs.FinalChan = len(p.ch)
+	}
 	obs.MaxChanFill = p.maxFill
 	obs.HoldFill = p.holdFill
 	obs.NoOptions = noOpts
@@ -986,6 +1026,7 @@ func runCase(c *Case) *Observed {
 		p.node.mu.Lock()
 		obs.Emitted = append([]Log(nil), p.node.emitted...)
 		obs.Inflight = append([]bool(nil), p.node.inflight...)
+		obs.FinLog = append([]string(nil), p.node.finLog...)
 		p.node.mu.Unlock()
 	}
 	obs.FinalHead = p.storedHead()
